@@ -137,12 +137,14 @@ def proof_leg(prop, tier):
         res["problems"].append("forbidden tokens: " + "; ".join(hits[:10]))
     adir = os.path.join(LEAN, ".lake", "audit")
     os.makedirs(adir, exist_ok=True)
-    afile = os.path.join(adir, f"{prop}.lean")
+    afile = os.path.join(adir, f"{prop}.{os.getpid()}.lean")
     with open(afile, "w") as f:
         for m_ in pmods: f.write(f"import {m_}\n")
         for t in thms:
             f.write(f"#print axioms {t['name']}\n")
     r = sh(["lake", "env", "lean", afile], cwd=LEAN, timeout=1800)
+    try: os.remove(afile)
+    except OSError: pass
     out = r.stdout
     for t in thms:
         nm = t["name"]
@@ -405,7 +407,8 @@ def check(prop, tier, seed):
     t0 = time.time()
     man = {c["property_id"]: c for c in load_json("MANIFEST.json")["checks"]}
     rules = load_json("obligations.json").get(prop, {})
-    wdir = os.path.join(WORK, prop)
+    # one work directory per invocation: concurrent checks (of the same property, of other tiers or seeds) must not share files
+    wdir = os.path.join(WORK, f"{prop}.{tier}.{os.getpid()}")
     if os.path.isdir(wdir): shutil.rmtree(wdir)
     os.makedirs(wdir)
     build_harness()
@@ -492,8 +495,16 @@ def check(prop, tier, seed):
         "wall_s": round(wall, 2), "violations": len(violations),
     }
     os.makedirs(os.path.join(ROOT, "evidence"), exist_ok=True)
-    with open(os.path.join(ROOT, "evidence", f"{prop}.json"), "w") as f:
+    etmp = os.path.join(ROOT, "evidence", f".{prop}.{os.getpid()}.tmp")
+    with open(etmp, "w") as f:
         json.dump(ev, f, indent=1)
+    os.replace(etmp, os.path.join(ROOT, "evidence", f"{prop}.json"))
+    if os.environ.get("VERIF_KEEP_WORK"):
+        keep = os.path.join(WORK, prop)
+        shutil.rmtree(keep, ignore_errors=True)
+        os.replace(wdir, keep)
+    else:
+        shutil.rmtree(wdir, ignore_errors=True)
     for l in lines: print(l)
     print(f"{prop} [{tier}] proof: {pl['discharged']}/{pl['obligations']} obligations; correspondence: "
           f"{len(st['order']) - len(skipped)} lines, {len(dis)} disagreements, {len(skipped)} skipped; oracle failures: {len(fails)} "
@@ -506,7 +517,7 @@ def check(prop, tier, seed):
 def replay(path):
     build_harness()
     build_lean(["ohsl-model"])
-    wdir = os.path.join(WORK, "replay")
+    wdir = os.path.join(WORK, f"replay.{os.getpid()}")
     os.makedirs(wdir, exist_ok=True)
     clean = os.path.join(wdir, "replay.cases")
     with open(clean, "w") as f:
